@@ -134,7 +134,8 @@ def run(shard, rec, tier, seed):
             for _ in range(L):
                 if rng.random() < pset:
                     kind = rng.choice(["zero", "account", "init", "init7", "ping", "simple", "init-ab", "ping-ab", "init-raw", "ping-raw"])
-                    v = rng.choice([0, 1, 9, 10, 240, 1757, 2 ** 31, 10 ** 12, rng.randrange(0, 2000), -1, -6, -9, -1757, -rng.randrange(1, 30)])
+                    v = rng.choice([0, 1, 9, 10, 240, 1757, 2 ** 31, 10 ** 12, rng.randrange(0, 2000), -1, -6, -9, -1757, -rng.randrange(1, 30),
+                                    2 ** 53 + 1, 2 ** 63 - 1, 2 ** 64 + 3, 10 ** 30 + 1, -(2 ** 53) - 3, 10 ** 16 + rng.randrange(100)])
                     if h and h[-1][0] == "set" and rng.random() < 0.5:
                         # the previous update's sibling: other class, same components / same number
                         pk, v = h[-1][1], h[-1][2]
@@ -176,7 +177,13 @@ def faulty_histories(rec, PS, ss, rng, n):
             r = rng.random()
             if r < 0.15:
                 fails = rng.randrange(1, 4)
-                seq.set_sequence_start(raising_start(ss, fails))
+                try:
+                    seq.set_sequence_start(raising_start(ss, fails))
+                except _Boom:
+                    # an implementation may read the value when the start is installed; this edge of the domain
+                    # (a start that cannot be read yet) is then not explorable - leave the history
+                    rec.count("set-raised-with-unreadable-start")
+                    break
                 sv = 77
                 hist.append(("set-flaky", fails))
             elif r < 0.3:
